@@ -2,7 +2,7 @@
 From Coq Require Import List String Bool.
 Import ListNotations.
 From NV Require Import Types.SigDefs Gen.PrimopSig Gen.PrimopDyn Types.SigSound.
-From NV Require Import Types.Syntax Types.Sem Types.Decl Types.LogRel Types.Safety Types.ModelSig Types.ModelSigSound Types.Examples.
+From NV Require Import Types.Syntax Types.Sem Types.Decl Types.LogRel Types.Safety Types.ModelSig Types.ModelSigSound Types.Examples Types.Checker Types.CheckerSound.
 
 (* T0, translator-tied: static primop types (real typechecker) vs observed run-time dispatch (real
    interpreter), for every primop outside the listed internal label/contract/sealing operations
@@ -40,3 +40,14 @@ Proof. exact type_safety_model. Qed.
 Theorem C01_typed_result_in_type : forall Sg, sig_sound Sg ->
   forall n e T v, has_type Sg [] e T -> eval n MTyped [] e = Ok v -> V T [] v.
 Proof. exact typed_result_in_type. Qed.
+
+(* certificates: the executable checker (extracted and run on every generated program) only accepts
+   derivations of the declarative system *)
+Theorem C01_checker_sound : forall Sg a T,
+  check_deriv Sg a T = true -> has_type Sg [] (erase a) T.
+Proof. exact checker_sound_lemma. Qed.
+
+(* ... so a certified program of the model signature is safe *)
+Theorem C01_certified_safe : forall a T n,
+  check_deriv model_sig a T = true -> safe_outcome (run n (erase a)).
+Proof. intros a T n H. eapply type_safety_model. apply checker_sound_lemma. eassumption. Qed.
